@@ -67,6 +67,7 @@ fn space_for(tier: Tier, ucd: &Ucd) -> Space {
         }
     }
     s.list("unknown names", nb + CATS.len() as u64, 64);
+    s.list("polarity pairs", CATS.len() as u64 + 5 + 12, 8);
     s
 }
 
@@ -293,6 +294,63 @@ impl Check for C10 {
                     }
                     out.sample(J::obj(vec![("escape", J::s(&pat)), ("block_range", J::s(format!("{:X?}", ranges)))]));
                 }
+            }
+            "polarity pairs" => {
+                // both polarities of one escape in one pattern (and inside one class)
+                for i in lo..hi {
+                    let (p, n): (String, String) = if (i as usize) < CATS.len() {
+                        let c = CATS[i as usize];
+                        (format!("\\p{{{}}}", c), format!("\\P{{{}}}", c))
+                    } else if (i as usize) < CATS.len() + 5 {
+                        let e = ["d", "w", "s", "i", "c"][i as usize - CATS.len()];
+                        (format!("\\{}", e), format!("\\{}", e.to_uppercase()))
+                    } else {
+                        let b = &ucd.block_names[(i as usize - CATS.len() - 5) * 7 % ucd.block_names.len()];
+                        (format!("\\p{{Is{}}}", b), format!("\\P{{Is{}}}", b))
+                    };
+                    // find a member and a non-member among a small candidate list
+                    let cands: Vec<char> = "aA1 _-$+(\u{e9}\u{3b1}\u{391}\u{660}\u{2028}\u{7f}\u{300}\u{2160}\u{4e2d}\u{e000}\u{378}\u{ad}\u{1c5}\u{2b0}\u{20dd}\u{903}\u{b2}\u{203f}\u{ab}\u{bb}\u{2029}\u{5e}\u{a6}".chars().chain(ucd.block_names.iter().filter_map(|b| ucd.blocks[b].first().and_then(|r| char::from_u32(r.0)))).collect();
+                    let single = |pat: &str, c: char| -> Option<bool> {
+                        match imp::compile(&format!("^{}$", pat), "", false) {
+                            Out::Ok(re) => imp::is_match(&re, &c.to_string()).ok().copied(),
+                            _ => None,
+                        }
+                    };
+                    let member = cands.iter().copied().find(|c| single(&p, *c) == Some(true));
+                    let non = cands.iter().copied().find(|c| single(&p, *c) == Some(false));
+                    let (m, x) = match (member, non) {
+                        (Some(m), Some(x)) => (m, x),
+                        _ => {
+                            out.inc("no_witness_pair");
+                            continue;
+                        }
+                    };
+                    let cases: Vec<(String, String, bool)> = vec![
+                        (format!("^{}{}$", p, n), format!("{}{}", m, x), true),
+                        (format!("^{}{}$", p, n), format!("{}{}", x, m), false),
+                        (format!("^{}{}$", n, p), format!("{}{}", x, m), true),
+                        (format!("^{}{}$", n, p), format!("{}{}", m, x), false),
+                        (format!("^[{}{}]$", p, n), m.to_string(), true),
+                        (format!("^[{}{}]$", n, p), x.to_string(), true),
+                        (format!("^[{}-[{}]]$", p, n), m.to_string(), true),
+                        (format!("^[{}-[{}]]$", p, n), x.to_string(), false),
+                        (format!("^[{}-[{}]]$", n, p), x.to_string(), true),
+                        (format!("^{}+{}+{}+$", p, n, p), format!("{}{}{}", m, x, m), true),
+                    ];
+                    for (pat, inp, want) in cases {
+                        out.inc("states");
+                        out.inc("validated");
+                        out.inc("nontrivial");
+                        let got = match imp::compile(&pat, "", false) {
+                            Out::Ok(re) => imp::is_match(&re, &inp),
+                            o => o.map(|_| false),
+                        };
+                        if got != Out::Ok(want) {
+                            out.fail("C10", &Case::new("PAIR", &pat, "").input(&inp).api("is_match"), "PolarityPairWrong", &want.to_string(), &got.show(), "membership taken from the single-escape observations");
+                        }
+                    }
+                }
+                out.sample(J::obj(vec![("polarity_pairs", J::s("^\\p{X}\\P{X}$, ^[\\p{X}-[\\P{X}]]$ … with a member and a non-member of X"))]));
             }
             _ => {
                 // unknown / near-miss names must be rejected with Syntax
